@@ -130,7 +130,8 @@ def rand_frange(rng, nchan):
     a = int(rng.integers(0, nchan))
     b = int(rng.integers(a + 1, nchan + 1))
     forms = [slice(a, b), slice(a - nchan, b) if a > 0 else slice(None, b), slice(a, b - nchan) if b < nchan else slice(a, None),
-             slice(a, b + int(rng.integers(0, 100))) if b == nchan else slice(a, b)]
+             slice(a, b + int(rng.integers(0, 100))) if b == nchan else slice(a, b),
+             slice(a, b, 1), slice(a, b, np.int64(1)), slice(*slice(a, b).indices(nchan)), slice(np.int64(a), np.int32(b))]
     return a, b, gen.pick(rng, forms)
 
 
